@@ -64,4 +64,109 @@ Proof.
   unfold b2z. destruct (img _ _ _ _ y); split; intros H; try reflexivity; try discriminate; auto.
 Qed.
 
+(** ** pre-image *)
+Lemma pair_asg_ext1 x x' y :
+  (forall k, 1 <= k <= K -> x k = x' k) ->
+  forall p, 1 <= p <= dep (is_ir rR) (2 * K) -> pair_asg x y p = pair_asg x' y p.
+Proof.
+  intros H p Hp. unfold pair_asg. destruct (Nat.even p) eqn:E; [|reflexivity].
+  apply H. assert (Hd : dep (is_ir rR) (2 * K) = 2 * K).
+  { unfold dep. replace (Nat.odd (2 * K)) with false; [now rewrite andb_false_r|].
+    symmetry. rewrite <- Nat.negb_even. rewrite Nat.even_mul. reflexivity. }
+  rewrite Hd in Hp. apply Nat.even_spec in E. destruct E as [q ->].
+  rewrite Nat.mul_comm, Nat.div_mul by lia. lia.
+Qed.
+
+Lemma rel_mem_ext1 r x x' y :
+  (forall k, 1 <= k <= K -> x k = x' k) -> rel_mem K rR r x y = rel_mem K rR r x' y.
+Proof.
+  intros H. unfold rel_mem, eval. f_equal. apply evalL_ext. now apply pair_asg_ext1.
+Qed.
+
+Lemma preimg_ext s r x x' :
+  (forall k, 1 <= k <= K -> x k = x' k) ->
+  preimg (nat -> nat) (states_of szS K) (rel_mem K rR r) (set_mem K rS s) x
+  = preimg (nat -> nat) (states_of szS K) (rel_mem K rR r) (set_mem K rS s) x'.
+Proof.
+  intros H. unfold preimg. induction (states_of szS K) as [|y l IH]; cbn; [reflexivity|].
+  now rewrite IH, (rel_mem_ext1 r x x' y H).
+Qed.
+
+Theorem pre_dd_eval s r x :
+  valid szS x -> is_ir rOut && Nat.odd K = false ->
+  eval rOut K (pre_dd szS K rS rR rOut s r) x
+  = b2z 1 (preimg (nat -> nat) (states_of szS K) (rel_mem K rR r) (set_mem K rS s) x).
+Proof.
+  intros Hx Hc. unfold pre_dd, dd_of_set, eval.
+  rewrite (of_fun_eval szS rOut).
+  - f_equal. apply preimg_ext. intros k Hk. unfold merge.
+    destruct (Nat.leb_spec 1 k); destruct (Nat.leb_spec k K); cbn; try lia; reflexivity.
+  - intros a b Hab. f_equal. apply preimg_ext. intros k _. apply Hab.
+  - exact Hx.
+  - intros E. rewrite E in Hc. discriminate.
+Qed.
+
+Theorem pre_dd_relational s r x :
+  valid szS x -> is_ir rOut && Nat.odd K = false ->
+  (eval rOut K (pre_dd szS K rS rR rOut s r) x = 1%Z <->
+   exists y, In y (states_of szS K) /\ set_mem K rS s y = true /\ rel_mem K rR r x y = true).
+Proof.
+  intros Hx Hc. rewrite pre_dd_eval by assumption.
+  unfold preimg. unfold b2z.
+  destruct (existsb _ _) eqn:E.
+  - split; [intros _|reflexivity]. apply existsb_exists in E. destruct E as (y & Hy & H).
+    apply andb_true_iff in H. exists y. tauto.
+  - split; [discriminate|]. intros (y & Hy & H1 & H2).
+    assert (existsb (fun y0 => set_mem K rS s y0 && rel_mem K rR r x y0) (states_of szS K) = true).
+    { apply existsb_exists. exists y. split; [exact Hy|now rewrite H1, H2]. }
+    congruence.
+Qed.
+
+(** ** vector-matrix products: the sum over the shared index *)
+Lemma vm_fun_ext v m y y' :
+  (forall k, 1 <= k <= K -> y k = y' k) -> vm_fun szS K rS rR v m y = vm_fun szS K rS rR v m y'.
+Proof.
+  intros H. unfold vm_fun. f_equal. apply map_ext. intros x. f_equal.
+  unfold eval. apply evalL_ext. now apply pair_asg_ext.
+Qed.
+
+Lemma mv_fun_ext m v x x' :
+  (forall k, 1 <= k <= K -> x k = x' k) -> mv_fun szS K rS rR m v x = mv_fun szS K rS rR m v x'.
+Proof.
+  intros H. unfold mv_fun. f_equal. apply map_ext. intros y. f_equal.
+  unfold eval. apply evalL_ext. now apply pair_asg_ext1.
+Qed.
+
+Theorem vm_dd_eval v m y :
+  valid szS y -> is_ir rOut && Nat.odd K = false ->
+  eval rOut K (vm_dd szS K rS rR rOut v m) y
+  = fold_left Z.add
+      (map (fun x => (eval rS K v x * eval rR (2 * K) m (pair_asg x y))%Z) (states_of szS K)) 0%Z.
+Proof.
+  intros Hy Hc. unfold vm_dd, eval at 1.
+  rewrite (of_fun_eval szS rOut).
+  - change (vm_fun szS K rS rR v m (merge K y (fun _ => 0)) = vm_fun szS K rS rR v m y).
+    apply vm_fun_ext. intros k Hk. unfold merge.
+    destruct (Nat.leb_spec 1 k); destruct (Nat.leb_spec k K); cbn; try lia; reflexivity.
+  - intros a b Hab. apply vm_fun_ext. intros k _. apply Hab.
+  - exact Hy.
+  - intros E. rewrite E in Hc. discriminate.
+Qed.
+
+Theorem mv_dd_eval m v x :
+  valid szS x -> is_ir rOut && Nat.odd K = false ->
+  eval rOut K (mv_dd szS K rS rR rOut m v) x
+  = fold_left Z.add
+      (map (fun y => (eval rR (2 * K) m (pair_asg x y) * eval rS K v y)%Z) (states_of szS K)) 0%Z.
+Proof.
+  intros Hx Hc. unfold mv_dd, eval at 1.
+  rewrite (of_fun_eval szS rOut).
+  - change (mv_fun szS K rS rR m v (merge K x (fun _ => 0)) = mv_fun szS K rS rR m v x).
+    apply mv_fun_ext. intros k Hk. unfold merge.
+    destruct (Nat.leb_spec 1 k); destruct (Nat.leb_spec k K); cbn; try lia; reflexivity.
+  - intros a b Hab. apply mv_fun_ext. intros k _. apply Hab.
+  - exact Hx.
+  - intros E. rewrite E in Hc. discriminate.
+Qed.
+
 End ImageP.
